@@ -192,7 +192,7 @@ def tok_string__reach(tok: str) -> bool:
     pre: dom_string(tok)
     post: not _
     """
-    return _string_outcome(tok) is None and len(tok) == N + 2 and BS in tok
+    return len(tok) == N + 2 and BS in tok
 
 
 def tok_string__in_1(tok: str) -> bool:
@@ -265,7 +265,7 @@ def tok_char__reach(tok: str) -> bool:
     pre: admits_char(tok)
     post: not _
     """
-    return _char_outcome(tok) is None and len(tok) == 4
+    return len(tok) == 4
 
 
 def tok_char__explain(tok):
@@ -305,7 +305,7 @@ def tok_binstring__reach(tok: str) -> bool:
     pre: dom_binstring(tok)
     post: not _
     """
-    return _bin_outcome(tok) is None and len(tok) == N + 2 and sum(1 for c in tok if c in HEXDIGITS) >= min(2, MAXHEX)
+    return len(tok) == N + 2 and sum(1 for c in tok if c in HEXDIGITS) >= min(2, MAXHEX)
 
 
 def tok_binstring__explain(tok):
@@ -348,7 +348,7 @@ def tok_int__reach(tok: str) -> bool:
     pre: dom_radix(tok)
     post: not _
     """
-    return _int_outcome(tok) is None and len(tok) == N + 2 and tok[0] == '-' and tok[1:3] == '0x'
+    return len(tok) == N + 2 and tok[0] == '-' and tok[1:3] == '0x'
 
 
 def tok_int__reach_bin(tok: str) -> bool:
@@ -356,7 +356,7 @@ def tok_int__reach_bin(tok: str) -> bool:
     pre: dom_radix(tok)
     post: not _
     """
-    return _int_outcome(tok) is None and tok[0:2] == '0b' and len(tok) >= 3
+    return tok[0:2] == '0b' and len(tok) >= 3
 
 
 def tok_int__in_0b(tok: str) -> bool:
@@ -380,7 +380,7 @@ def tok_int__excl__reach(tok: str) -> bool:
     pre: dom_radix(tok) and not known_radix_bare0b(tok)
     post: not _
     """
-    return _int_outcome(tok) is None and tok[0:2] == '0b'
+    return tok[0:2] == '0b'
 
 
 def tok_int__explain(tok):
@@ -422,7 +422,7 @@ def int_width__reach(w: int, signed: bool) -> bool:
     """
     post: not _
     """
-    return _width_outcome(w, signed) is None and w == 8 and not signed
+    return w == 8 and not signed
 
 
 def int_width__in_w(w: int, signed: bool) -> bool:
@@ -446,7 +446,7 @@ def int_width__excl__reach(w: int, signed: bool) -> bool:
     pre: not known_width(w, signed)
     post: not _
     """
-    return _width_outcome(w, signed) is None and signed and w > 8
+    return signed and w > 8
 
 
 def int_width__explain(w, signed):
@@ -504,7 +504,7 @@ def decl_width__reach(neg: bool, digits: str, signed: bool) -> bool:
     pre: dom_digits(digits)
     post: not _
     """
-    return _decl_width_outcome(neg, digits, signed) is None and len(digits) == N and not signed
+    return len(digits) == N and not signed
 
 
 def decl_width__in_w(neg: bool, digits: str, signed: bool) -> bool:
@@ -528,7 +528,7 @@ def decl_width__excl__reach(neg: bool, digits: str, signed: bool) -> bool:
     pre: dom_digits(digits) and not known_width(_digits_value(neg, digits), signed)
     post: not _
     """
-    return _decl_width_outcome(neg, digits, signed) is None and not signed
+    return not signed
 
 
 def decl_width__explain(neg, digits, signed):
@@ -569,7 +569,7 @@ def decl_str__reach(neg: bool, digits: str, null: bool) -> bool:
     pre: dom_digits(digits)
     post: not _
     """
-    return _decl_str_outcome(neg, digits, null) is None and neg and len(digits) == N
+    return neg and len(digits) == N
 
 
 def decl_str__explain(neg, digits, null):
@@ -630,7 +630,7 @@ def repeat_bounds__reach(kind: int, neg1: bool, d1: str, neg2: bool, d2: str) ->
     pre: kind != 2 or (len(d1) <= 1 and len(d2) <= 1)
     post: not _
     """
-    return _repeat_outcome(kind, neg1, d1, neg2, d2) is None and kind == 2 and d1 > d2 and not neg1 and not neg2
+    return kind == 2 and d1 > d2 and not neg1 and not neg2
 
 
 def repeat_bounds__explain(kind, neg1, d1, neg2, d2):
@@ -693,7 +693,7 @@ def ws_marker__reach(src: str, pos: int) -> bool:
     pre: dom_marker(src, pos)
     post: not _
     """
-    return _marker_outcome(src, pos) is None and len(src) == N and src[0] == NL and pos >= 2
+    return len(src) == N and src[0] == NL and pos >= 2
 
 
 def ws_marker__in_breaks(src: str, pos: int) -> bool:
@@ -717,7 +717,7 @@ def ws_marker__excl__reach(src: str, pos: int) -> bool:
     pre: dom_marker(src, pos) and not known_marker_breaks(src)
     post: not _
     """
-    return _marker_outcome(src, pos) is None and len(src) == N and pos >= 1
+    return len(src) == N and pos >= 1
 
 
 def ws_marker__explain(src, pos):
